@@ -11,7 +11,7 @@ for base in $(git -C /repo rev-parse HEAD) 7f9f60f92 3957fafb8; do
   if git apply --check "$D/patch.diff" 2>/dev/null; then echo "base $base" > "$D/confirm_base.txt"; break; fi
 done
 cp "$D/demo.rs" sdk/tests/demo_verif.rs
-F="--features file_io,fetch_remote_manifests"
+F="--features ${CONFIRM_FEATURES:-file_io,fetch_remote_manifests}"
 cargo test --offline -p c2pa $F --test demo_verif > "$D/confirm_without.txt" 2>&1; r1=$?
 git apply "$D/patch.diff" || { echo "patch does not apply"; exit 2; }
 # one build for both: the lib unit tests of the touched modules and the demo (the filter matches no demo test name, so
